@@ -18,6 +18,9 @@
      - the host only hands an inbound stream to the DHT while a handler is registered for its
        protocol (go-libp2p multistream dispatch: modelled, not verified).  A stream that was
        dispatched but whose handler goroutine has not reached its first mode read is [PStart];
+     - a stream in protocol negotiation (handler already looked up by the host, protocol not yet set on
+       the stream: [vis] = false) is not seen by moveToClientMode's reset loop; the host sets the
+       protocol before it calls the handler (go-libp2p basic host: modelled, not verified);
      - ReadMsg on a stream that was Reset fails (EReadErr);
      - a message is either "good" (decodable, has a handler, handler and write succeed: handled,
        loop continues) or "bad" (handleNewMessage returns false: stream reset);
@@ -45,6 +48,9 @@ Record stream := {
   sid : nat;
   kind : skind;
   ph : phase;
+  vis : bool;                 (* the stream's protocol is set (basic host: SetProtocol precedes the handler call).
+                                 While false the stream is still in protocol negotiation: the host has already
+                                 looked the handler up, but moveToClientMode's pset[s.Protocol()] does not see it *)
   rst : bool;                 (* Reset() has been called on it (by the handler or by moveToClientMode) *)
   closed : bool;              (* Close() has been called on it by handleNewStream (orderly end) *)
   handled : nat;              (* messages for which the handler ran and the response was written *)
@@ -70,7 +76,10 @@ Inductive event : Set :=
 | EProcess                          (* the subscriber takes the oldest queued event: handleLocalReachabilityChangedEvent,
                                        setMode up to its return or, for a demotion, up to just after RemoveStreamHandler *)
 | ESetModeDone                      (* rest of moveToClientMode: reset inbound DHT streams; return; unlock *)
-| ENewStream (s : nat) (k : skind)  (* a stream appears on a connection; inbound DHT streams are dispatched to handleNewStream *)
+| ENewStream (s : nat) (k : skind) (neg : bool)
+                                    (* a stream appears on a connection; for an inbound DHT stream the host has found the
+                                       handler (dispatch to handleNewStream follows); neg: its protocol is not set yet *)
+| EAnnounce (s : nat)               (* the host sets the protocol of a stream it is about to hand to its handler *)
 | EModeRead (s : nat)               (* handler goroutine of s: dht.getMode() at the top of the loop *)
 | EMessage (s : nat) (good : bool)  (* ReadMsg returns a request on s *)
 | EReadErr (s : nat)                (* ReadMsg fails because s was reset *)
@@ -81,30 +90,34 @@ Definition find_stream (i : nat) (l : list stream) : option stream :=
 Definition upd_stream (i : nat) (f : stream -> stream) (l : list stream) : list stream :=
   map (fun x => if Nat.eqb (sid x) i then f x else x) l.
 
-Definition new_stream (i : nat) (k : skind) : stream :=
+Definition new_stream (i : nat) (k : skind) (neg : bool) : stream :=
   {| sid := i; kind := k; ph := (match k with KInDHT => PStart | _ => PForeign end);
+     vis := (match k with KInDHT => negb neg | _ => true end);
      rst := false; closed := false; handled := 0; last_read := None; served := [] |}.
 
 Definition with_ph (p : phase) (x : stream) : stream :=
-  {| sid := sid x; kind := kind x; ph := p; rst := rst x; closed := closed x; handled := handled x;
+  {| sid := sid x; kind := kind x; ph := p; vis := vis x; rst := rst x; closed := closed x; handled := handled x;
      last_read := last_read x; served := served x |}.
 Definition with_rst (x : stream) : stream :=
-  {| sid := sid x; kind := kind x; ph := ph x; rst := true; closed := closed x; handled := handled x;
+  {| sid := sid x; kind := kind x; ph := ph x; vis := vis x; rst := true; closed := closed x; handled := handled x;
      last_read := last_read x; served := served x |}.
 Definition with_closed (x : stream) : stream :=
-  {| sid := sid x; kind := kind x; ph := ph x; rst := rst x; closed := true; handled := handled x;
+  {| sid := sid x; kind := kind x; ph := ph x; vis := vis x; rst := rst x; closed := true; handled := handled x;
+     last_read := last_read x; served := served x |}.
+Definition with_vis (x : stream) : stream :=
+  {| sid := sid x; kind := kind x; ph := ph x; vis := true; rst := rst x; closed := closed x; handled := handled x;
      last_read := last_read x; served := served x |}.
 Definition with_read (m : mode) (x : stream) : stream :=
-  {| sid := sid x; kind := kind x; ph := PRead; rst := rst x; closed := closed x; handled := handled x;
+  {| sid := sid x; kind := kind x; ph := PRead; vis := vis x; rst := rst x; closed := closed x; handled := handled x;
      last_read := Some m; served := served x |}.
 Definition with_handled (x : stream) : stream :=
-  {| sid := sid x; kind := kind x; ph := PStart; rst := rst x; closed := closed x; handled := S (handled x);
+  {| sid := sid x; kind := kind x; ph := PStart; vis := vis x; rst := rst x; closed := closed x; handled := S (handled x);
      last_read := last_read x; served := last_read x :: served x |}.
 
 (* dht.go:834-842: every stream of a served protocol with Direction == DirInbound still
    present on a connection is Reset *)
 Definition is_open_inbound (x : stream) : bool :=
-  skind_eqb (kind x) KInDHT && negb (phase_eqb (ph x) PDone).
+  skind_eqb (kind x) KInDHT && vis x && negb (phase_eqb (ph x) PDone).
 Definition demote_reset (x : stream) : stream := if is_open_inbound x then with_rst x else x.
 
 (* what the subscriber goroutine does with one event (subscriber_notifee.go:70-76, 102-127; dht.go:789-844) *)
@@ -139,21 +152,27 @@ Definition step (s : st) (e : event) : option st :=
       then Some {| auto := auto s; cur := cur s; handler := handler s; queue := queue s; switching := false;
                    streams := map demote_reset (streams s) |}
       else None
-  | ENewStream i k =>
+  | ENewStream i k neg =>
       match find_stream i (streams s) with
       | Some _ => None            (* stream identities are fresh *)
       | None =>
           match k with
-          | KInDHT => if handler s then Some (set_streams s (streams s ++ [new_stream i k]))
+          | KInDHT => if handler s then Some (set_streams s (streams s ++ [new_stream i k neg]))
                       else Some s (* no handler registered: the host refuses the protocol, the DHT never sees it *)
-          | _ => Some (set_streams s (streams s ++ [new_stream i k]))
+          | _ => Some (set_streams s (streams s ++ [new_stream i k neg]))
           end
+      end
+  | EAnnounce i =>
+      match find_stream i (streams s) with
+      | Some x => if negb (vis x) && phase_eqb (ph x) PStart
+                  then Some (set_streams s (upd_stream i with_vis (streams s))) else None
+      | None => None
       end
   | EModeRead i =>
       if switching s then None    (* dht.modeLk is held by setMode *)
       else match find_stream i (streams s) with
            | Some x =>
-               if phase_eqb (ph x) PStart then
+               if phase_eqb (ph x) PStart && vis x then
                  if message_rejected (cur s)
                  then Some (set_streams s (upd_stream i (fun x => with_rst (with_ph PDone x)) (streams s)))
                       (* return false; handleNewStream: s.Reset() *)
